@@ -286,7 +286,7 @@ func directedCase(c *seqCase, rng *prng.R, p *pool, tag string, scenario, varian
 		c.ops = []op{{kind: opFault, f: &fault{kind: "layer-status", code: 503, dig: la.built.Digest.String()}}, o(opDiff, A), {kind: opHeal}, o(opDiff, A)}
 	case 4:
 		c.directed = "release-one-layer-while-sibling-in-use-then-lookup"
-		c.ops = []op{o(opUse, A), o(opUse, B), o(opDiff, A), o(opRelease, A), o(opDiff, A)}
+		c.ops = []op{o(opUse, A), o(opUse, B), o(opDiff, A), o(opRelease, A), o(opDiff, A), {kind: opExpire}, o(opDiff, A), {kind: opHoldRead}}
 	case 5:
 		c.directed = "last-use-released-with-unused-sibling-layer"
 		c.ops = []op{o(opUse, A), o(opDiff, A), o(opRelease, A)}
